@@ -42,6 +42,8 @@ from typing import Generic, List, Mapping, Optional, Sequence, Set, Tuple
 from typing import Type, TypeVar, Union, cast
 from typing_extensions import Protocol, Self
 
+from . import _verif
+
 from .agent import SSHAgentClient, SSHAgentListener
 
 from .auth import Auth, ClientAuth, KbdIntChallenge, KbdIntPrompts
@@ -1708,6 +1710,11 @@ class SSHConnection(SSHPacketHandler, asyncio.Protocol):
 
         handler.log_received_packet(pkttype, seq, packet, skip_reason)
 
+        if _verif.sink:
+            _verif.emit('pkt_in', conn=self, pkttype=pkttype, seq=seq,
+                        payload=payload, skip_reason=skip_reason,
+                        encrypted=bool(self._recv_encryption))
+
         if not skip_reason:
             try:
                 result = handler.process_packet(pkttype, seq, packet)
@@ -1777,6 +1784,10 @@ class SSHConnection(SSHPacketHandler, asyncio.Protocol):
                  not (self._auth_in_progress or self._auth_complete)) or
                 (pkttype > MSG_USERAUTH_LAST and not self._auth_complete)):
             self._deferred_packets.append((pkttype, args))
+
+            if _verif.sink:
+                _verif.emit('pkt_defer', conn=self, pkttype=pkttype)
+
             return
 
         # If we're encrypting and we have no data outstanding, insert an
@@ -1811,6 +1822,11 @@ class SSHConnection(SSHPacketHandler, asyncio.Protocol):
             mac = b''
 
         self._send(packet + mac)
+
+        if _verif.sink:
+            _verif.emit('pkt_out', conn=self, pkttype=pkttype, seq=seq,
+                        payload=orig_payload, wire_len=len(packet) + len(mac),
+                        encrypted=bool(self._send_encryption))
 
         if self._send_seq == 0xffffffff and not self._send_encryption:
             self._send_seq = 0
@@ -1951,6 +1967,13 @@ class SSHConnection(SSHPacketHandler, asyncio.Protocol):
         mac_key_sc = self._kex.compute_key(k, h, b'F', self._session_id,
                                            mac_keysize_sc)
         self._kex = None
+
+        if _verif.sink:
+            _verif.emit('keylog', conn=self, k=k, h=h,
+                        session_id=self._session_id, first_kex=first_kex,
+                        enc_cs=self._enc_alg_cs, enc_sc=self._enc_alg_sc,
+                        mac_cs=self._mac_alg_cs, mac_sc=self._mac_alg_sc,
+                        cmp_cs=self._cmp_alg_cs, cmp_sc=self._cmp_alg_sc)
 
         next_enc_cs = get_encryption(self._enc_alg_cs, enc_key_cs, iv_cs,
                                      self._mac_alg_cs, mac_key_cs, etm_cs)
